@@ -4,6 +4,7 @@ package sim
 
 import (
 	"context"
+	"encoding/hex"
 	"fmt"
 	"net"
 	"sync"
@@ -30,6 +31,18 @@ type User struct {
 	Name     string
 	Password string
 	Quotas   []*appctlpb.Quota
+	// HashedHex, if set, is used instead of Password (hex of SHA-256(password‖0‖name)); it lets two
+	// users share one credential.
+	HashedHex string
+}
+
+// Hashed returns the user's hashed password.
+func (u User) Hashed() []byte {
+	if u.HashedHex != "" {
+		b, _ := hex.DecodeString(u.HashedHex)
+		return b
+	}
+	return cipher.HashPassword([]byte(u.Password), []byte(u.Name))
 }
 
 type Config struct {
@@ -71,7 +84,11 @@ func (c *Config) defaults() {
 func pbUsers(us []User) map[string]*appctlpb.User {
 	m := map[string]*appctlpb.User{}
 	for _, u := range us {
-		m[u.Name] = &appctlpb.User{Name: proto.String(u.Name), Password: proto.String(u.Password), Quotas: u.Quotas}
+		if u.HashedHex != "" {
+			m[u.Name] = &appctlpb.User{Name: proto.String(u.Name), HashedPassword: proto.String(u.HashedHex), Quotas: u.Quotas}
+		} else {
+			m[u.Name] = &appctlpb.User{Name: proto.String(u.Name), Password: proto.String(u.Password), Quotas: u.Quotas}
+		}
 	}
 	return m
 }
@@ -133,7 +150,7 @@ func (w *World) NewClient(user int, pattern *appctlpb.TrafficPattern) (*protocol
 	}
 	cl.SetTrafficPattern(ctp)
 	u := cfg.Users[user]
-	cl.SetClientUserNamePassword(u.Name, cipher.HashPassword([]byte(u.Password), []byte(u.Name)))
+	cl.SetClientUserNamePassword(u.Name, u.Hashed())
 	cl.SetClientMultiplexFactor(cfg.Multiplex)
 	cl.SetEndpoints([]protocol.UnderlayProperties{protocol.NewUnderlayProperties(cfg.MTU, transport(cfg.UDP), nil, w.serverAddr())})
 	w.mu.Lock()
@@ -167,6 +184,9 @@ func (w *World) Dial(ctx context.Context) (net.Conn, error) { return w.Client.Di
 func (w *World) Keys(user int) [][]byte {
 	u := w.Cfg.Users[user]
 	hp := wire.HashedPassword(u.Name, u.Password)
+	if u.HashedHex != "" {
+		hp = u.Hashed()
+	}
 	var keys [][]byte
 	seen := map[int64]bool{}
 	for _, t := range []time.Time{w.Start, time.Now()} {
